@@ -28,6 +28,8 @@ func SendAccountDebitRequest(
 	if err != nil {
 		return nil, err
 	}
+	// one connection per request: release it (and its reader/watchdog tasks) on every return path
+	defer conn.Close()
 
 	meta, ok := smpeer.FromContext(conn.Context())
 	if !ok {
